@@ -6,41 +6,49 @@
 cd /verif || exit 2
 filter=${1:-C}
 pass=0; fail=0
-R=/tmp/st_repo
-V=/tmp/st_verif
+SH=${SHARD:-0/1}; SI=${SH%/*}; SN=${SH#*/}
+R=/tmp/st_repo_$SI
+V=/tmp/st_verif_$SI
+cnt=0
+mine() { cnt=$((cnt+1)); [ $(( (cnt-1) % SN )) -eq $SI ]; }
 rm -rf $R $V; mkdir -p $R $V; rsync -a --exclude .git /repo/ $R/; rsync -a --exclude .git --exclude bin --exclude replays --exclude seeded --exclude govc /verif/ $V/
-run() { GOVC_FULL_SEC=10 ./bin/govc check -repo $R -verif $V -property "$1" >/tmp/st.log 2>&1; echo $?; }
+L=/tmp/st_$SI.log
+run() { GOVC_FULL_SEC=10 ./bin/govc check -j 6 -repo $R -verif $V -property "$1" >$L 2>&1; echo $?; }
 for d in seeded/*/; do
   id=$(basename $d); pid=$(python3 -c "import json;print(json.load(open('$d/meta.json'))['property'])" 2>/dev/null || echo ${id%%-*})
   case $pid in $filter*) ;; *) continue;; esac
+  mine || continue
   (cd $R && git apply /verif/$d/patch.diff) || { echo "SEED $id: patch does not apply"; fail=$((fail+1)); continue; }
   rc=$(run $pid); (cd $R && git apply -R /verif/$d/patch.diff)
-  if [ "$rc" = 1 ]; then pass=$((pass+1)); echo "SEED $id ($pid): detected: $(grep VIOLATION /tmp/st.log | sed 's/.*obligation=//' | head -2 | tr '\n' ' ')"; else fail=$((fail+1)); echo "SEED $id ($pid): MISSED (exit $rc)"; fi
+  if [ "$rc" = 1 ]; then pass=$((pass+1)); echo "SEED $id ($pid): detected: $(grep VIOLATION $L | sed 's/.*obligation=//' | head -2 | tr '\n' ' ')"; else fail=$((fail+1)); echo "SEED $id ($pid): MISSED (exit $rc)"; fi
 done
 grep -v '^#' selftest/mutants.txt | while IFS="|" read -r pid file expr; do
   case $pid in $filter*) ;; *) continue;; esac
-  cp $R/$file /tmp/st_backup; sed -i "$expr" $R/$file
-  if cmp -s $R/$file /tmp/st_backup; then echo "MUT $pid $file: sed did not change the file: $expr"; continue; fi
-  rc=$(run $pid); cp /tmp/st_backup $R/$file
-  if [ "$rc" = 1 ]; then echo "MUT $pid $file: detected: $(grep VIOLATION /tmp/st.log | sed 's/.*obligation=//' | head -1)"; else echo "MUT $pid $file: MISSED (exit $rc): $expr"; fi
+  mine || continue
+  cp $R/$file /tmp/st_backup_$SI; sed -i "$expr" $R/$file
+  if cmp -s $R/$file /tmp/st_backup_$SI; then echo "MUT $pid $file: sed did not change the file: $expr"; continue; fi
+  rc=$(run $pid); cp /tmp/st_backup_$SI $R/$file
+  if [ "$rc" = 1 ]; then echo "MUT $pid $file: detected: $(grep VIOLATION $L | sed 's/.*obligation=//' | head -1)"; else echo "MUT $pid $file: MISSED (exit $rc): $expr"; fi
 done
 grep -v '^#' selftest/refactors.txt | while IFS="|" read -r pid file expr; do
   case $pid in $filter*) ;; *) continue;; esac
-  cp $R/$file /tmp/st_backup; sed -i "$expr" $R/$file
-  if cmp -s $R/$file /tmp/st_backup; then echo "REF $pid $file: sed did not change the file: $expr"; continue; fi
-  rc=$(run $pid); cp /tmp/st_backup $R/$file
-  if [ "$rc" = 0 ]; then echo "REF $pid $file: ok (no alarm)"; else echo "REF $pid $file: FALSE ALARM (exit $rc): $(grep VIOLATION /tmp/st.log | sed 's/.*obligation=//' | head -1)"; fi
+  mine || continue
+  cp $R/$file /tmp/st_backup_$SI; sed -i "$expr" $R/$file
+  if cmp -s $R/$file /tmp/st_backup_$SI; then echo "REF $pid $file: sed did not change the file: $expr"; continue; fi
+  rc=$(run $pid); cp /tmp/st_backup_$SI $R/$file
+  if [ "$rc" = 0 ]; then echo "REF $pid $file: ok (no alarm)"; else echo "REF $pid $file: FALSE ALARM (exit $rc): $(grep VIOLATION $L | sed 's/.*obligation=//' | head -1)"; fi
 done
 # behaviour-preserving refactorings written by sub-agents (selftest/refactor_patches/*.diff): no check of a property whose
 # contracts cover the touched package may alarm
 for p in selftest/refactor_patches/*.diff; do
+  mine || continue
   (cd $R && git apply /verif/$p) || { echo "REFPATCH $p: does not apply"; continue; }
   file=$(grep '^+++ b/' $p | head -1 | sed 's|+++ b/||'); dir=$(dirname $file)
   props=$(grep -oh "C[0-9][0-9]" $R/$dir/verif_contracts.go 2>/dev/null | sort -u | tr '\n' ' ')
   res=""
   for pr in $props; do
     case $pr in $filter*) ;; *) continue;; esac
-    rc=$(run $pr); [ "$rc" = 0 ] || res="$res $pr:$(grep VIOLATION /tmp/st.log | sed 's/.*obligation=//' | head -1)"
+    rc=$(run $pr); [ "$rc" = 0 ] || res="$res $pr:$(grep VIOLATION $L | sed 's/.*obligation=//' | head -1)"
   done
   if [ -z "$res" ]; then echo "REFPATCH $(basename $p) [$props]: ok (no alarm)"; else echo "REFPATCH $(basename $p): FALSE ALARM $res"; fi
   (cd $R && git apply -R /verif/$p)
